@@ -19,7 +19,7 @@ RULE = (
     "one instruction (any class of any flavour) with exactly one operand field outside its range (register index 16.., "
     "8-bit immediate <0 or >255, integer/address outside int32, app id outside uint16, version byte outside uint8), "
     "reached by direct construction, through the text assembler and through the SDK (rotation n/d, measurement basis "
-    "rotations, template instantiation, app id, NV hardware angle normalisation), with the value also given as a numpy integer, and "
+    "rotations, template instantiation, app id (also on a subroutine object that was already encoded once), NV hardware angle normalisation), with the value also given as a numpy integer, and "
     "(instructions the NV transpiler copies or retargets) through NV transpilation before encoding; every shape x position x outlier list "
     "enumerated + Hypothesis-random outliers.  Every case is non-trivial; distinct by (route, class, position, value)"
 )
@@ -138,9 +138,13 @@ def check_direct(case) -> str:
             return "equal"
         if case.get("via") == "instantiate":
             sub = Subroutine(instructions=instrs, netqasm_version=tuple(case.get("version", [0, 0])), app_id=0)
+            if case.get("encoded_before"):
+                bytes(sub)  # the same object was already encoded once, for application 0
             sub.instantiate(case.get("app_id", 0), {})
         elif case.get("via") == "setter":
             sub = Subroutine(instructions=instrs, netqasm_version=tuple(case.get("version", [0, 0])), app_id=0)
+            if case.get("encoded_before"):
+                bytes(sub)
             sub.app_id = case.get("app_id", 0)
         else:
             sub = Subroutine(instructions=instrs, netqasm_version=(None if case.get("version", 0) is None else tuple(case.get("version", [0, 0]))), app_id=case.get("app_id", 0))
@@ -362,6 +366,8 @@ def enumerated() -> List[Any]:
         cases.append({"route": "direct", "what": "app_id", "via": "instantiate", "flavour": "vanilla", "cls": None, "vals": [], "app_id": v, "value": v})
         cases.append({"route": "direct", "what": "app_id", "via": "setter", "flavour": "vanilla", "cls": None, "vals": [], "app_id": v, "value": v})
         cases.append({"route": "sdk", "what": "app_id_instantiate", "value": v})
+        for via in ("instantiate", "setter"):
+            cases.append({"route": "direct", "what": "app_id", "via": via, "encoded_before": True, "flavour": "vanilla", "cls": None, "vals": [], "app_id": v, "value": v})
         cases.append({"route": "text", "what": "app_id", "flavour": "vanilla", "text": f"# NETQASM 0.0\n# APPID {v}\nset R0 1", "value": v})
         # the version line is optional in the text format
         cases.append({"route": "text", "what": "app_id", "flavour": "vanilla", "text": f"# APPID {v}\nset R0 1", "value": v})
